@@ -9,7 +9,7 @@ NAMESPACE = 'VL.C04'
 LEAN_MODULES = ['VotelibProofs.Props.C04']
 GEN_MODULES = ['Quota']
 REQUIRED = ['pscCheck_sound_complete', 'unsupported_coalition_trivial', 'droop_at_least_half', 'hare_at_least_half',
-            'majority_first_choice_wins', 'psc_shared_rank_witness', 'psc_shared_rank_witness_spec']
+            'majority_first_choice_wins', 'result_shape', 'psc_shared_rank_witness', 'psc_shared_rank_witness_spec']
 UNPROVED = ['mutual_majority (single seat, coalitions without shared ranks)',
             'psc_droop (general: n seats, k quotas; checked on every outcome with the verified pscCheck instead)']
 REQUIRED_COUNTERS = ['coalition_k_ge_1_and_larger', 'refusal', 'hare', 'shared_ranks', 'majority_winner', 'psc_false',
